@@ -91,10 +91,11 @@ func H17_backoff() {
 			cfg.Multiplier = math.Max(cfg.Multiplier, 1+1e-9)
 		}
 		finished := make(chan struct{})
+		var ds []time.Duration
 		go func() {
 			defer close(finished)
 			for i := 0; i < 2000; i++ {
-				check(cfg.Backoff(attempt))
+				ds = append(ds, cfg.Backoff(attempt))
 			}
 		}()
 		select {
@@ -102,6 +103,10 @@ func H17_backoff() {
 		case <-time.After(10 * time.Second):
 			// a call never returned: it waits for a lock an earlier call kept
 			vAssert(false, "C17.backoff-returns-holding-no-lock")
+		}
+		// judged here, not in the goroutine: a failed obligation ends the replay by a panic
+		for _, d := range ds {
+			check(d)
 		}
 		return
 	}
